@@ -31,11 +31,14 @@ package server
 // pauseCalls / lastPausedTask: invocations of pauseTaskWithReason and the task named by the last one
 //@ ghost var pauseCalls int
 //@ ghost var lastPausedTask string
+// lastPauseFrom: the states the stored task had to be in for the last pause to be accepted (empty = any)
+//@ ghost var lastPauseFrom []meta.TaskState
 //@ func (*MetaCDC).pauseTaskWithReason
 //@   props C06 C11
 //@   ghostset return pauseCalls := pauseCalls + 1
 //@   ghostset return lastPausedTask := taskID
-//@   ensures [the-pause-is-recorded-for-the-named-task] pauseCalls == old(pauseCalls) + 1 && lastPausedTask == taskID
+//@   ghostset return lastPauseFrom := currentStates
+//@   ensures [the-pause-is-recorded-for-the-named-task] pauseCalls == old(pauseCalls) + 1 && lastPausedTask == taskID && lastPauseFrom == currentStates
 // the task ids of stored / running tasks were checked when the task was created (validCreateRequest) or were generated
 //@   trustpre WithLabelValues
 //@   requires wfTasks(e) && wfEntities(e)
@@ -334,8 +337,18 @@ package server
 //@ spec recsWf(tps []*meta.TaskCollectionPosition) bool = (forall i int :: {tps[i]} 0 <= i && i < len(tps) ==> tps[i] != nil && (forall ch string :: {mhas(tps[i].Positions, ch)} ch in tps[i].Positions ==> tps[i].Positions[ch] != nil && tps[i].Positions[ch].DataPair != nil)) && (forall i int, j int :: {tps[i], tps[j]} 0 <= i && i < j && j < len(tps) ==> tps[i].CollectionID != tps[j].CollectionID)
 //@ spec seeksDone(seeks map[int64]map[string]*msgpb.MsgPosition, tps []*meta.TaskCollectionPosition, upto int) bool = forall j int :: {tps[j]} 0 <= j && j <= upto && j < len(tps) ==> (tps[j].CollectionID in seeks) && seekOf(seeks[tps[j].CollectionID], tps[j])
 //@ spec ownMaps(seeks map[int64]map[string]*msgpb.MsgPosition) bool = forall c1 int64, c2 int64 :: {mget(seeks, c1), mget(seeks, c2)} c1 in seeks && c2 in seeks && c1 != c2 ==> seeks[c1] != seeks[c2]
+// startCalls / lastStarted / lastStartUnguarded: invocations of startInternal, the task record of the last one and whether
+// it skipped the store's state guard ([Initial, Paused] -> Running)
+//@ ghost var startCalls int
+//@ ghost var lastStarted *meta.TaskInfo
+//@ ghost var lastStartUnguarded bool
 //@ func (*MetaCDC).startInternal
-//@   props C05
+//@   props C05 C11
+//@   ghostset return startCalls := startCalls + 1
+//@   ghostset return lastStarted := info
+//@   ghostset return lastStartUnguarded := ignoreUpdateState
+//@   ensures [the-start-is-recorded] startCalls == old(startCalls) + 1 && lastStarted == info && lastStartUnguarded == ignoreUpdateState
+//@   private startCalls lastStarted lastStartUnguarded
 //@   requires e != nil && info != nil && e.metaStoreFactory != nil
 //@   opaque newReplicateEntity getChannelReader pauseTaskWithReason UpdateTaskState GetShouldReadFunc getRPCChannelName getTaskUniqueIDFromInfo
 //@   loop 1 invariant [every-checkpointed-collection-resumes-from-its-own-checkpoint] recsWf(taskPositions) ==> seeksDone(channelSeekPosition, taskPositions, rangeindex)
@@ -516,3 +529,36 @@ package server
 //@   ensures [a-create-that-failed-before-its-task-was-stored-leaves-every-user-role-flag-as-it-was] err != nil && deleteCalls == old(deleteCalls) ==> (forall k string :: {mget(e.collectionNames.extraInfos, k)} e.collectionNames.extraInfos[k] == old(e.collectionNames.extraInfos[k]))
 //@   ensures [a-failed-create-records-no-name-mapping] err != nil ==> (forall k string, s string :: {mget(mget(e.collectionNames.nameMapping, k), s)} e.collectionNames.nameMapping[k][s] == old(e.collectionNames.nameMapping[k][s]) || e.collectionNames.nameMapping[k][s] == "")
 //@   loop 1 invariant acceptedState(e, req, uKey, mapCollectionNames)
+
+// ---- C11: the transitions the API offers -----------------------------------------------------------------------------
+// Pause: an unknown task or a task that is already paused is refused without any effect; otherwise exactly one pause of
+// the named task is attempted, guarded by "the stored state is Running" (the store refuses every other state), and its
+// failure is the request's failure.
+//@ func (*MetaCDC).Pause
+//@   props C11
+//@   requires e != nil && req != nil && wfTasks(e) && wfEntities(e)
+//@   private pauseCalls lastPausedTask lastPauseFrom startCalls arrays(meta.TaskState) request.PauseRequest.TaskID
+//@   ensures [an-unknown-task-is-refused-without-effect] !old(req.TaskID in e.cdcTasks.data) ==> err != nil && pauseCalls == old(pauseCalls) && metaPuts == old(metaPuts)
+//@   ensures [a-paused-task-is-refused-without-effect] old(req.TaskID in e.cdcTasks.data) && old(e.cdcTasks.data[req.TaskID]) != nil && old(e.cdcTasks.data[req.TaskID].State) == meta.TaskStatePaused ==> err != nil && pauseCalls == old(pauseCalls) && metaPuts == old(metaPuts)
+//@   ensures [a-successful-pause-paused-exactly-this-task-from-running] err == nil ==> pauseCalls == old(pauseCalls) + 1 && lastPausedTask == old(req.TaskID) && len(lastPauseFrom) == 1 && lastPauseFrom[0] == meta.TaskStateRunning
+//@   ensures [pause-never-starts-anything] startCalls == old(startCalls)
+// Resume: an unknown or a running task is refused without any effect; otherwise exactly one start of that task's record
+// is attempted, with the store's state guard on.
+//@ func (*MetaCDC).Resume
+//@   props C11
+//@   requires e != nil && req != nil && e.metaStoreFactory != nil
+//@   trustpre startInternal
+//@   private pauseCalls startCalls lastStarted lastStartUnguarded
+//@   ensures [an-unknown-task-is-refused-without-effect] !old(req.TaskID in e.cdcTasks.data) ==> err != nil && startCalls == old(startCalls)
+//@   ensures [a-running-task-is-refused-without-effect] old(req.TaskID in e.cdcTasks.data) && old(e.cdcTasks.data[req.TaskID]) != nil && old(e.cdcTasks.data[req.TaskID].State) == meta.TaskStateRunning ==> err != nil && startCalls == old(startCalls)
+//@   ensures [a-successful-resume-started-exactly-this-task-with-the-state-guard-on] err == nil ==> startCalls == old(startCalls) + 1 && lastStarted == old(e.cdcTasks.data[req.TaskID]) && !lastStartUnguarded
+// Delete: an unknown task is refused (or, if the caller asked so, ignored) without any effect; otherwise exactly one
+// removal of that task is attempted and its failure is the request's failure.
+//@ func (*MetaCDC).Delete
+//@   props C11
+//@   requires e != nil && req != nil
+//@   trustpre delete
+//@   private deleteCalls pauseCalls startCalls
+//@   ensures [an-unknown-task-is-never-removed] !old(req.TaskID in e.cdcTasks.data) ==> deleteCalls == old(deleteCalls) && (err == nil) == old(req.IgnoreNotFound)
+//@   ensures [a-known-task-is-removed-exactly-once] old(req.TaskID in e.cdcTasks.data) ==> deleteCalls == old(deleteCalls) + 1
+//@   ensures [delete-neither-pauses-nor-starts] pauseCalls == old(pauseCalls) && startCalls == old(startCalls)
